@@ -13,6 +13,7 @@ import io
 import json
 import multiprocessing
 import os
+import signal
 import random
 import shutil
 import sys
@@ -275,6 +276,20 @@ CUR = Acc()   # accumulator the case functions report telemetry to
 QUICK_HINT = False   # set by a property's run() before forking when quick-tier case functions trim their inner menus
 
 
+CASE_CPU_LIMIT = int(os.environ.get("VERIF_CASE_CPU_LIMIT") or 15)
+
+
+class CaseTimeout(BaseException):
+    pass
+
+
+def _case_timeout(signum, frame):
+    raise CaseTimeout()
+
+
+signal.signal(signal.SIGVTALRM, _case_timeout)
+
+
 def drive(acc, fn_name, fn, cases, shard, nshards, family=None, deadline=None,
           sample=True):
     """Enumerate `cases` (deterministic order), run the shard's share through
@@ -297,10 +312,24 @@ def drive(acc, fn_name, fn, cases, shard, nshards, family=None, deadline=None,
         if sample:
             acc.sample(family, idx, case)
         try:
-            out = fn(case)
+            # a case that burns CASE_CPU_LIMIT seconds of this worker's own CPU time (cases take milliseconds; the
+            # slowest, an image rendering, about a second) is a library call that does not return: reported as a
+            # violation with the case as replay, instead of hanging the run until the wall-clock watchdog.  CPU time of
+            # the process, not wall time: a loaded machine cannot trip it.
+            signal.setitimer(signal.ITIMER_VIRTUAL, CASE_CPU_LIMIT)
+            try:
+                out = fn(case)
+            finally:
+                signal.setitimer(signal.ITIMER_VIRTUAL, 0)
             if out is not None:
                 for (fam, sym, feats, exp, obs) in out:
                     acc.violation(fam, sym, feats, fn_name, case, exp, obs, idx)
+        except CaseTimeout:
+            acc.violation(family, "no-result:call-does-not-return", ["cpu-seconds>%d" % CASE_CPU_LIMIT],
+                          fn_name, case, "a result", "still running after %d s of CPU time" % CASE_CPU_LIMIT, idx)
+            # one per shard is enough (every further one would cost the same CPU time again): the family is cut here
+            acc.capped.append(family)
+            break
         except (Exception, SystemExit) as ex:
             # the case function lets library exceptions escape only when it
             # has no better classification for them
